@@ -24,11 +24,12 @@ type node = { k : char; root : bool; mutable f : int array; mutable items : int 
 
 let kind_of = function
   | 'S' | 's' | 'W' | 'F' -> KStruct | 'R' | 'r' -> KRef | 'B' -> KBox | 'A' -> KArray | 'L' -> KList
-  | 'T' | 'Y' -> KTable | 'E' | 'Z' -> KTree | 'U' | 'u' -> KTuple | _ -> KLeaf
+  | 'T' | 'Y' -> KTable | 'E' | 'Z' -> KTree | 'U' | 'u' | 'V' -> KTuple | _ -> KLeaf
 let is_reg k = k >= 'A' && k <= 'Z'
 let ptrs nd = match nd.k with
   | 'S' | 's' | 'W' | 'R' | 'r' | 'B' -> Array.to_list nd.f
   | 'F' -> []
+  | 'V' -> List.filter (fun x -> x <> 0) (Array.to_list nd.f)      (* the Mark method skips NULL fields *)
   | 'T' | 'E' | 'Y' | 'Z' -> List.map snd nd.kv
   | _ -> nd.items
 let contents nd = gm_contents (kind_of nd.k) (List.map (fun i -> if i = 0 then N0 else addr i) (ptrs nd))
@@ -154,7 +155,7 @@ let run mode line =
           let digits = String.length (string_of_int id) in
           let k = rest.[digits] in
           let root = String.length rest > digits + 1 && rest.[digits + 1] = '!' in
-          let nd = { k; root; f = (match k with 'S' | 's' | 'W' -> [|0; 0|] | 'R' | 'r' | 'B' -> [|0|] | _ -> [||]);
+          let nd = { k; root; f = (match k with 'S' | 's' | 'W' | 'V' -> [|0; 0|] | 'R' | 'r' | 'B' -> [|0|] | _ -> [||]);
                      items = []; kv = [] } in
           if k = 'W' then Hashtbl.replace bigs id ();
           Hashtbl.replace nodes id nd;
@@ -167,6 +168,34 @@ let run mode line =
           end else store id;
           Hashtbl.replace stack id ();
           roots ()
+        | 'L' ->
+          (* L<first>,<n>,<K>,<tail>: singly linked chain, the head stays in a stack slot *)
+          (match String.split_on_char ',' rest with
+           | [first; n; k; tail] ->
+             let first = int_of_string first and n = int_of_string n and k = k.[0] and tail = int_of_string tail in
+             let prev = ref tail in
+             for i = 0 to n - 1 do
+               let id = first + i in
+               let nd = { k; root = false; f = (match k with 'S' | 'V' -> [|0; 0|] | 'R' | 'B' -> [|0|] | _ -> [||]);
+                          items = []; kv = [] } in
+               if !prev <> 0 then (if k = 'U' then nd.items <- [!prev] else nd.f.(0) <- !prev);
+               Hashtbl.replace nodes id nd;
+               if spec then begin
+                 sheap := gm_nset (addr id) (contents nd) !sheap;
+                 sreg := gm_nset (addr id) false !sreg;
+                 sorder := addr id :: !sorder
+               end else begin
+                 (* the new node is created empty (collection point), then its pointer is stored *)
+                 let empty = { nd with f = Array.map (fun _ -> 0) nd.f; items = [] } in
+                 flush_roots (); do_step (EAlloc (addr id, contents empty, false));
+                 do_step (EStore (addr id, contents nd))
+               end;
+               Hashtbl.replace stack id ();
+               if !prev <> 0 && !prev >= first then Hashtbl.remove stack !prev;
+               roots ();
+               prev := id
+             done
+           | _ -> failwith "L")
         | 'B' ->
           (* B<c>,<m>,<n>,<first>: n fresh probe structs allocated while container c is being built; each
              allocation is a collection point at which c holds the elements inserted so far *)
